@@ -1,0 +1,233 @@
+//go:build verif
+
+package broker
+
+// Contracts for MemoryBackend (govc, /verif). Comments only.
+//
+// MemoryBackend is a monitor under globalMutex (session tables, closing flag);
+// Setup additionally serialises connection attempts with setupMutex, which it
+// keeps while it waits - with globalMutex released - for a displaced client.
+// What the topic trees contain is reasoned about through their event log
+// (tlast: last value Set per filter/topic, nemptied, lastfirst) and the
+// assumed postcondition that queries return stored values only (package
+// topic); the messages and subscriptions themselves are ordinary heap objects,
+// so "delivered intact" / "stored copy keeps the flag" are frame conditions.
+
+//@ global ErrQueueFull [nonnil] ErrQueueFull != nil
+//@ global ErrClosing [nonnil] ErrClosing != nil
+//@ global ErrKillTimeout [nonnil] ErrKillTimeout != nil
+//
+//@ guarded_by MemoryBackend.globalMutex: MemoryBackend.activeClients, MemoryBackend.storedSessions, MemoryBackend.temporarySessions, MemoryBackend.closing
+//@ ghost nwaitclosed int
+//@ func chan.recv:ret:Client.Closed(ch int, v int)
+//@   ensures nwaitclosed == old(nwaitclosed) + 1
+//@   modifies nwaitclosed
+//@ ghost nenqueued int
+//@ ghost lastenqueued int
+//@ func chan.send:memorySession.temporaryQueue(ch int, v *packet.Message)
+//@   requires [msg] v != nil
+//@   ensures nenqueued == old(nenqueued) + 1 && lastenqueued == v
+//@   modifies nenqueued, lastenqueued
+// The session queues carry non-nil messages (every send site passes one).
+//@ func chan.recv:memorySession.temporaryQueue(ch int, v *packet.Message)
+//@   ensures [msg] v != nil
+//@   modifies nothing
+//@ func chan.recv:memorySession.storedQueue(ch int, v *packet.Message)
+//@   ensures [msg] v != nil
+//@   modifies nothing
+//@ functype "func(broker.LogEvent, *broker.Client, packet.Generic, *packet.Message, error)" (event LogEvent, client *Client, pkt packet.Generic, msg *packet.Message, err error)
+//@   modifies nothing
+//
+// A session object of this backend: its trees are well-formed and typed, its
+// queues exist.
+//@ spec pred sess_ok(s *memorySession) = s != nil && s.subscriptions != nil && tree_ok(s.subscriptions) && std(s.subscriptions) && held[s.subscriptions.mutex] == 0 && tvtype[s.subscriptions] == typetag(*packet.Subscription) && s.storedQueue != nil && s.temporaryQueue != nil && s.MemorySession != nil
+//@ spec pred backend_ok(m *MemoryBackend) = m.activeClients != nil && m.storedSessions != nil && m.temporarySessions != nil && m.retainedMessages != nil && tree_ok(m.retainedMessages) && std(m.retainedMessages) && held[m.retainedMessages.mutex] == 0 && tvtype[m.retainedMessages] == typetag(*packet.Message)
+//@ spec pred own_session(c *Client) = istype(c.session, *memorySession) && sess_ok(as(c.session, *memorySession))
+//
+//@ func (c *Client) Session() (s Session)
+//@   ensures s == c.session
+//@   modifies nothing
+//@ func (c *Client) ID() (id string)
+//@   ensures id == c.id
+//@   modifies nothing
+//@ func (c *Client) Close()
+//@   requires [client] client_ok(c)
+//@   modifies nclose, tdying[c.tomb]
+//@ func (c *Client) Closing() (ch <-chan struct{})
+//@   modifies nothing
+//@ func (c *Client) Closed() (ch <-chan struct{})
+//@   modifies nothing
+//
+//@ func (s *memorySession) lookupSubscription(topic string) (sub *packet.Subscription)
+//@   requires [session] sess_ok(s)
+//@   ensures [first-match] sub == ptr(lastfirst, *packet.Subscription)
+//@   ensures [tree] sess_ok(s) && held == old(held)
+//@   modifies held, lastfirst
+//
+// applyQOS: the message handed on carries min(message QoS, subscription QoS);
+// the queued message itself is never modified (other sessions share it) - the
+// lower QoS lives in a fresh copy.
+//@ func (s *memorySession) applyQOS(msg *packet.Message) (r *packet.Message)
+//@   requires [session] sess_ok(s) && msg != nil
+//@   ensures [result] r != nil && (r == msg || fresh(r))
+//@   ensures [capped] lastfirst != 0 && old(msg.QOS) > ptr(lastfirst, *packet.Subscription).QOS ==> r != msg && r.QOS == ptr(lastfirst, *packet.Subscription).QOS
+//@   ensures [kept] !(lastfirst != 0 && old(msg.QOS) > ptr(lastfirst, *packet.Subscription).QOS) ==> r == msg
+//@   ensures [content] r.Topic == old(msg.Topic) && r.Payload == old(msg.Payload) && (r.Retain <==> old(msg.Retain)) && r.QOS <= old(msg.QOS)
+//@   ensures [intact] msg.QOS == old(msg.QOS) && msg.Topic == old(msg.Topic) && msg.Payload == old(msg.Payload) && (msg.Retain <==> old(msg.Retain))
+//@   ensures [unlocked] held == old(held) && sess_ok(s)
+//@   modifies held, lastfirst
+//
+//@ func (s *memorySession) reuse()
+//@   requires [session] s != nil
+//@   ensures [kept] s.storedQueue == old(s.storedQueue) && s.subscriptions == old(s.subscriptions) && s.MemorySession == old(s.MemorySession) && s.activeClient == old(s.activeClient)
+//@   ensures [fresh-temporary] s.temporaryQueue != nil && fresh(s.temporaryQueue)
+//@   modifies s.temporaryQueue
+
+//@ func newMemorySession(backlog int) (s *memorySession)
+//@   requires [wf] wf()
+//@   ensures [session] s != nil && fresh(s) && sess_ok(s) && s.activeClient == nil && fresh(s.subscriptions) && fresh(s.storedQueue) && fresh(s.temporaryQueue)
+//@   ghostset tvtype[s.subscriptions] := typetag(*packet.Subscription)
+//@   modifies isnode, tvtype
+//
+// Publish (C06, C11): under the global mutex; a retained publish with payload
+// stores a fresh copy that keeps the flag, one with empty payload clears the
+// topic, a non-retained one leaves the retained tree alone; the live message
+// has the flag cleared and is otherwise intact on every path.
+//@ func (m *MemoryBackend) Publish(client *Client, msg *packet.Message, ack Ack) (err error)
+//@   requires [unlocked] held[m.globalMutex] == 0
+//@   requires [backend] backend_ok(m) && msg != nil
+//@   requires [sessions] (forall c *Client {m.temporarySessions[c]} :: has(m.temporarySessions, c) ==> sess_ok(m.temporarySessions[c]) && m.temporarySessions[c].activeClient != nil && client_ok(m.temporarySessions[c].activeClient)) && (forall id string {m.storedSessions[id]} :: has(m.storedSessions, id) ==> sess_ok(m.storedSessions[id]) && (m.storedSessions[id].activeClient != nil ==> client_ok(m.storedSessions[id].activeClient)))
+//@   ensures [live-flag-cleared] !msg.Retain
+//@   ensures [intact] msg.Topic == old(msg.Topic) && msg.Payload == old(msg.Payload) && msg.QOS == old(msg.QOS)
+//@   ensures [retained-stored] old(msg.Retain) && len(msg.Payload) > 0 ==> tlast[m.retainedMessages][msg.Topic] != 0 && tlast[m.retainedMessages][msg.Topic] != msg && fresh(ptr(tlast[m.retainedMessages][msg.Topic], *packet.Message)) && ptr(tlast[m.retainedMessages][msg.Topic], *packet.Message).Retain && ptr(tlast[m.retainedMessages][msg.Topic], *packet.Message).Topic == msg.Topic && ptr(tlast[m.retainedMessages][msg.Topic], *packet.Message).Payload == msg.Payload && ptr(tlast[m.retainedMessages][msg.Topic], *packet.Message).QOS == msg.QOS && nemptied == old(nemptied)
+//@   ensures [retained-cleared] old(msg.Retain) && len(msg.Payload) == 0 ==> nemptied[m.retainedMessages][msg.Topic] == old(nemptied[m.retainedMessages][msg.Topic]) + 1 && tlast == old(tlast)
+//@   ensures [retained-untouched] !old(msg.Retain) ==> tlast == old(tlast) && nemptied == old(nemptied)
+//@   ensures [released] held == old(held)
+//@   modifies msg.Retain, any(topic.node.values), any(topic.node.children), anymap(map[string]*topic.node), elemsof(iface), isnode, held, tlast, nemptied, lastfirst, nchansend
+//@   loop 1 invariant [state] held == old(held)[m.globalMutex := 2] && !msg.Retain && msg.Topic == old(msg.Topic) && msg.Payload == old(msg.Payload) && msg.QOS == old(msg.QOS) && backend_ok(m)
+//@   loop 2 invariant [state] held == old(held)[m.globalMutex := 2] && !msg.Retain && msg.Topic == old(msg.Topic) && msg.Payload == old(msg.Payload) && msg.QOS == old(msg.QOS) && backend_ok(m)
+//@ functype "func(s *broker.memorySession) chan *packet.Message" (s *memorySession) (ch chan *packet.Message)
+//@   requires [session] s != nil
+//@   ensures [queue] ch == s.temporaryQueue || ch == s.storedQueue
+//@   modifies nothing
+//@ func (m *MemoryBackend) Publish$1(s *memorySession) (ch chan *packet.Message)
+//@   requires [session] s != nil
+//@   ensures [queue] ch == s.temporaryQueue || ch == s.storedQueue
+//@   ensures [temporary] ch == s.temporaryQueue
+//@   modifies nothing
+//@ func (m *MemoryBackend) Publish$2(s *memorySession) (ch chan *packet.Message)
+//@   requires [session] s != nil
+//@   ensures [queue] ch == s.temporaryQueue || ch == s.storedQueue
+//@   ensures [stored] ch == s.storedQueue
+//@   modifies nothing
+
+//@ spec pred sessions_ok(m *MemoryBackend) = (forall c *Client {m.temporarySessions[c]} :: has(m.temporarySessions, c) ==> sess_ok(m.temporarySessions[c]) && m.temporarySessions[c].activeClient != nil && client_ok(m.temporarySessions[c].activeClient)) && (forall id string {m.storedSessions[id]} :: has(m.storedSessions, id) ==> sess_ok(m.storedSessions[id]) && (m.storedSessions[id].activeClient != nil ==> client_ok(m.storedSessions[id].activeClient)))
+//
+//@ func NewMemoryBackend() (m *MemoryBackend)
+//@   requires [wf] wf()
+//@   ensures [backend] m != nil && fresh(m) && backend_ok(m) && sessions_ok(m) && !m.closing && held[m.globalMutex] == 0 && held[m.setupMutex] == 0
+//@   ghostset tvtype[m.retainedMessages] := typetag(*packet.Message)
+//@   modifies isnode, tvtype
+//
+//@ func (m *MemoryBackend) Authenticate(client *Client, user string, password string) (ok bool, err error)
+//@   requires [unlocked] held[m.globalMutex] == 0
+//@   ensures [closing] old(m.closing) ==> !ok && err != nil
+//@   ensures [released] held == old(held)
+//@   modifies held
+//
+// Subscribe (C06, C11): every requested filter is stored with a subscription
+// object carrying that entry's topic and QoS (a later entry for the same filter
+// wins), before the acknowledgement is released; retained messages are
+// replayed from the retained tree without being modified.
+//@ func (m *MemoryBackend) Subscribe(client *Client, subs []packet.Subscription, ack Ack) (err error)
+//@   requires [unlocked] held[m.globalMutex] == 0
+//@   requires [backend] backend_ok(m) && client != nil && own_session(client)
+//@   requires [distinct-trees] as(client.session, *memorySession).subscriptions != m.retainedMessages
+//@   ensures [stored] forall i int {subs[i]} :: 0 <= i && i < len(subs) && (forall j int {subs[j]} :: i < j && j < len(subs) ==> subs[j].Topic != subs[i].Topic) ==> tlast[as(client.session, *memorySession).subscriptions][subs[i].Topic] != 0 && ptr(tlast[as(client.session, *memorySession).subscriptions][subs[i].Topic], *packet.Subscription).Topic == subs[i].Topic && ptr(tlast[as(client.session, *memorySession).subscriptions][subs[i].Topic], *packet.Subscription).QOS == subs[i].QOS
+//@   ensures [request-intact] forall i int {subs[i]} :: 0 <= i && i < len(subs) ==> subs[i].Topic == old(subs[i].Topic) && subs[i].QOS == old(subs[i].QOS)
+//@   ensures [released] held == old(held)
+//@   modifies any(topic.node.values), any(topic.node.children), anymap(map[string]*topic.node), elemsof(iface), isnode, held, tlast, nenqueued, lastenqueued
+//@   loop 1 invariant [stored] 0 <= rangeindex + 1 && rangeindex + 1 <= len(subs) && held == old(held)[m.globalMutex := 2] && backend_ok(m) && own_session(client) && (forall i int {subs[i]} :: 0 <= i && i < len(subs) ==> subs[i].Topic == old(subs[i].Topic) && subs[i].QOS == old(subs[i].QOS)) && forall i int {subs[i]} :: 0 <= i && i <= rangeindex && (forall j int {subs[j]} :: i < j && j <= rangeindex ==> subs[j].Topic != subs[i].Topic) ==> tlast[as(client.session, *memorySession).subscriptions][subs[i].Topic] != 0 && ptr(tlast[as(client.session, *memorySession).subscriptions][subs[i].Topic], *packet.Subscription).Topic == subs[i].Topic && ptr(tlast[as(client.session, *memorySession).subscriptions][subs[i].Topic], *packet.Subscription).QOS == subs[i].QOS
+//@   loop 2 invariant [replay] 0 <= rangeindex + 1 && rangeindex + 1 <= len(subs) && held == old(held)[m.globalMutex := 2] && backend_ok(m) && own_session(client)
+//@   loop 3 invariant [values] 0 <= rangeindex + 1 && rangeindex + 1 <= len(values) && held == old(held)[m.globalMutex := 2] && forall i int {values[i]} :: 0 <= i && i < len(values) ==> values[i] != nil && dyn(values[i]) == typetag(*packet.Message) && payload(values[i]) != 0
+//
+// Unsubscribe: every listed filter is emptied before the acknowledgement.
+//@ func (m *MemoryBackend) Unsubscribe(client *Client, topics []string, ack Ack) (err error)
+//@   requires [backend] client != nil && own_session(client)
+//@   ensures [emptied] err == nil
+//@   ensures [released] held == old(held)
+//@   modifies any(topic.node.values), any(topic.node.children), anymap(map[string]*topic.node), elemsof(iface), held, nemptied
+//@   loop 1 invariant [emptying] 0 <= rangeindex + 1 && rangeindex + 1 <= len(topics) && held == old(held) && own_session(client)
+//
+// Dequeue: hands out what applyQOS makes of the queued message.
+//@ func (m *MemoryBackend) Dequeue(client *Client) (msg *packet.Message, ack Ack, err error)
+//@   requires [backend] client != nil && own_session(client)
+//@   ensures [no-ack] ack == nil && err == nil
+//@   ensures [released] held == old(held)
+//@   modifies held, lastfirst
+//
+// Terminate (C13, C14): detaches the client from its session and from both
+// tables; never panics, also for a client whose Setup failed (no session).
+//@ func (m *MemoryBackend) Terminate(client *Client) (err error)
+//@   requires [unlocked] held[m.globalMutex] == 0
+//@   requires [backend] m.temporarySessions != nil && m.activeClients != nil && client != nil
+//@   requires [session] client.session == nil || istype(client.session, *memorySession)
+//@   ensures [detached] !has(m.temporarySessions, client) && !has(m.activeClients, client.id) && err == nil
+//@   ensures [session-free] istype(client.session, *memorySession) && as(client.session, *memorySession) != nil ==> as(client.session, *memorySession).activeClient == nil
+//@   ensures [released] held == old(held)
+//@   modifies any(memorySession.activeClient), elems(m.temporarySessions), elems(m.activeClients), held
+//
+//@ func (m *MemoryBackend) Log(event LogEvent, client *Client, pkt packet.Generic, msg *packet.Message, err error)
+//@   modifies nothing
+//@ func (m *MemoryBackend) Restore(client *Client) (err error)
+//@   ensures err == nil
+//@   modifies nothing
+
+// Setup (C13, C08): serialised by setupMutex from entry to every exit; a
+// session that still has an active client is handed out only after that
+// client's Closed() signal was received (or not at all: ErrKillTimeout); a
+// clean connect discards the stored session and gets a fresh one, an unclean
+// one gets the stored session object itself (only its temporary queue is
+// replaced) and reports resumed, otherwise a new stored session is created.
+//@ func (m *MemoryBackend) Setup(client *Client, id string, clean bool) (s Session, resumed bool, err error)
+//@   requires [unlocked] held[m.globalMutex] == 0 && held[m.setupMutex] == 0
+//@   requires [backend] backend_ok(m) && sessions_ok(m) && wf() && client != nil && client_ok(client)
+//@   ensures [closing] old(m.closing) ==> err != nil
+//@   ensures [failed] err != nil ==> s == nil && !resumed
+//@   ensures [session] err == nil ==> istype(s, *memorySession) && as(s, *memorySession) != nil && sess_ok(as(s, *memorySession)) && as(s, *memorySession).activeClient == client
+//@   ensures [anonymous] err == nil && len(id) == 0 ==> !resumed && fresh(as(s, *memorySession)) && has(m.temporarySessions, client) && m.temporarySessions[client] == as(s, *memorySession)
+//@   ensures [clean] err == nil && len(id) > 0 && clean ==> !resumed && fresh(as(s, *memorySession)) && !has(m.storedSessions, id) && has(m.activeClients, id) && m.activeClients[id] == client
+//@   ensures [resume] err == nil && len(id) > 0 && !clean && old(has(m.storedSessions, id)) ==> resumed && as(s, *memorySession) == old(m.storedSessions[id]) && has(m.storedSessions, id) && m.storedSessions[id] == as(s, *memorySession) && as(s, *memorySession).storedQueue == old(m.storedSessions[id].storedQueue) && as(s, *memorySession).subscriptions == old(m.storedSessions[id].subscriptions) && as(s, *memorySession).MemorySession == old(m.storedSessions[id].MemorySession) && m.activeClients[id] == client
+//@   ensures [new-stored] err == nil && len(id) > 0 && !clean && !old(has(m.storedSessions, id)) ==> !resumed && fresh(as(s, *memorySession)) && has(m.storedSessions, id) && m.storedSessions[id] == as(s, *memorySession) && m.activeClients[id] == client
+//@   ensures [waited-for-displaced] err == nil && len(id) > 0 && old(has(m.storedSessions, id)) && old(m.storedSessions[id].activeClient) != nil ==> nwaitclosed == old(nwaitclosed) + 1
+//@   ensures [no-spurious-wait] nwaitclosed <= old(nwaitclosed) + 1
+//@   ensures [released] held == old(held)
+//@   modifies client.MaximumKeepAlive, client.ParallelPublishes, client.ParallelSubscribes, client.InflightMessages, client.TokenTimeout, any(memorySession.activeClient), any(memorySession.temporaryQueue), elems(m.temporarySessions), elems(m.activeClients), elems(m.storedSessions), isnode, tvtype, held, nwaitclosed, nclose, tdying
+//@   at call 1 Closed assert [setup-serialised] held[m.setupMutex] == 2 && held[m.globalMutex] == 0
+
+// MemoryBackend.Close: marks the backend closing and closes every active
+// client under the global mutex, then waits for them without holding it.
+//@ func (m *MemoryBackend) Close(timeout time.Duration) (ok bool)
+//@   requires [unlocked] held[m.globalMutex] == 0
+//@   requires [backend] backend_ok(m) && sessions_ok(m)
+//@   ensures [closing] m.closing
+//@   ensures [released] held == old(held)
+//@   modifies m.closing, held, nclose, tdying, nwaitclosed
+//@   loop 1 invariant [closing] m.closing && held == old(held)[m.globalMutex := 2] && sessions_ok(m) && backend_ok(m) && fresh(clients) && forall i int {clients[i]} :: 0 <= i && i < len(clients) ==> clients[i] != nil
+//@   loop 2 invariant [closing] m.closing && held == old(held)[m.globalMutex := 2] && sessions_ok(m) && backend_ok(m) && fresh(clients) && forall i int {clients[i]} :: 0 <= i && i < len(clients) ==> clients[i] != nil
+//@   loop 3 invariant [waiting] m.closing && held == old(held) && 0 <= rangeindex + 1 && rangeindex + 1 <= len(clients) && forall i int {clients[i]} :: 0 <= i && i < len(clients) ==> clients[i] != nil
+
+// ---------------------------------------------------------------- Engine (C14, C20)
+//
+// Handle: the connect timeout is armed before the client is created, so a
+// peer that never sends its CONNECT is dropped; a nil connection is a
+// programming error of the caller (declared panic).
+//@ func (e *Engine) Handle(conn transport.Conn) (ok bool)
+//@   requires [conn] conn != nil
+//@   requires [engine] e.Backend != nil && held[e.mutex] == 0
+//@   ensures [released] held == old(held)
+//@   modifies nclose, tstarted, held
+//@   at call 1 NewClient assert [timeout-armed] held[e.mutex] == 2
+//@ func NewEngine(backend Backend) (e *Engine)
+//@   ensures e != nil && fresh(e) && e.Backend == backend && held[e.mutex] == 0
+//@   modifies nothing
